@@ -173,7 +173,7 @@ class StockSim(Engine):
             if world["system"]:
                 kind = rng.weighted([("set_param", 5), ("sys_compute", 5), ("read", 1)])
             else:
-                kind = rng.weighted([("set_driver", 4), ("set_prms", 5), ("compute", 6), ("read", 2)])
+                kind = rng.weighted([("set_driver", 4), ("set_prms", 5), ("compute", 6), ("read", 2), ("twin", 1)])
             if kind == "set_driver":
                 op = {"op": "set_driver", "k": k, "how": rng.weighted([("whole", 3), ("entry", 2), ("setitem", 2), ("scale", 2), ("zero", 2), ("layout", 2)]), "vseed": rng.randint(0, 10 ** 6)}
             elif kind == "set_prms":
@@ -186,6 +186,8 @@ class StockSim(Engine):
                 op = {"op": "compute", "k": k, "twice": rng.chance(0.3)}
             elif kind == "read":
                 op = {"op": "read", "k": k, "what": rng.choice(["sf", "pdf"])}
+            elif kind == "twin":
+                op = {"op": "twin", "k": k}
             elif kind == "set_param":
                 op = {"op": "set_param", "which": rng.randint(0, 2), "spec": gen_prm_spec(rng, nd), "vseed": rng.randint(0, 10 ** 6), "nan": rng.chance(0.08)}
                 if rng.chance(fp_bad):
@@ -689,10 +691,38 @@ class StockSim(Engine):
             for j in shared:
                 self._note(st, j, "read" if out == "ret" else ("interrupted_read" if out == "interrupt" else "failed_read"))
             return out
+        if kind == "twin":
+            # a scenario twin made the pydantic way - a shallow model_copy with arrays and lifetime model of its own - gets another driver
+            # and is computed: its results are those of a fresh stock, and the original's results are not touched by it
+            if spec["cls"] == "simple" or not getattr(st, "computed", {}).get(k):
+                return "skip"
+            lt = st.lts[k]
+            try:
+                with np.errstate(all="ignore"), warnings.catch_warnings():
+                    warnings.simplefilter("ignore")
+                    prms = {k_: (None if v is None else np.array(v, copy=True)) for k_, v in lt.prms.items()}
+                    lt2 = type(lt)(dims=stock.dims, time_letter=lt.time_letter, inflow_at=lt.inflow_at, n_pts_per_interval=lt.n_pts_per_interval, **prms)
+                    twin = stock.model_copy(update={"stock": stock.stock.copy(), "inflow": stock.inflow.copy(), "outflow": stock.outflow.copy(),
+                                                    "lifetime_model": lt2})
+            except Exception:  # noqa
+                return "skip"
+            before = self._results(stock)
+            drv = twin.inflow if spec["cls"] == "inflow" else twin.stock
+            drv.values[...] = drv.values * 2.0 + 1.0
+            drivers = self._drivers(twin)
+            out = self._call(st, op, n, lambda: twin.compute())
+            self._probe(st, "scenario_twin_computed")
+            if out == "ret":
+                self._judge_compute(st, twin, drivers, f"twin of {type(stock).__name__}.compute() at step {n}", lt2)
+            self._compare(st, self._results(stock), before, "twin-leaves-original", f"results of the original after its model_copy twin was computed ({out})")
+            return out
         if kind == "compute":
             drivers = self._drivers(stock)
             out = self._call(st, op, n, lambda: stock.compute())
             if out == "ret":
+                if not hasattr(st, "computed"):
+                    st.computed = {}
+                st.computed[k] = True
                 self._note(st, k, "compute")
                 self._judge_compute(st, stock, drivers, f"{type(stock).__name__}.compute() at step {n}", st.lts[k], getattr(st, "given", {}).get(k))
                 if op.get("twice"):
